@@ -241,6 +241,7 @@ func Survey(self, repo, verif string, props []string, only string, par int, outF
 			if t, ok := raw["tests"]; ok && t != "tests-pass" {
 				continue
 			}
+			o.Mutant.Props = rules.IDs() // rules were added since: evaluate every property
 			ms = append(ms, o.Mutant)
 		}
 		f.Close()
